@@ -1,7 +1,10 @@
 ----------------------------- MODULE PoolConcMC -----------------------------
 EXTENDS PoolConc, Json
 \* keys: 1 = connection A, 2 = connection B; dir 0/1
-P(k, d, f) == <<k, d, f>>
+P(k, d, f) == <<k, d, f, FALSE>>
+\* a packet sent beyond a hole (queued out of order); the model ignores the marker, the driver honours it
+PO(k, d, f) == <<k, d, f, TRUE>>
+\* key 0: dir 0 = FlushAll, dir 1 = FlushOlderThan(far future)
 \* W1: first packets of the two directions race
 MC_W1 == << <<P(1, 0, FALSE)>>, <<P(1, 1, FALSE)>> >>
 \* W2: a connection is closed by FINs and its object recycled for another key while a thread holds the old pointer
@@ -12,6 +15,9 @@ MC_W3 == << <<P(1, 0, FALSE), P(1, 0, FALSE)>>, <<P(2, 0, FALSE)>>, <<P(0, 0, FA
 MC_W4 == << <<P(1, 0, FALSE), P(1, 0, TRUE)>>, <<P(1, 1, FALSE), P(2, 0, FALSE)>>, <<P(0, 0, FALSE)>> >>
 \* W5: two workers create the same connection at once; a third creates another
 MC_W5 == << <<P(1, 0, FALSE)>>, <<P(1, 1, FALSE), P(1, 1, FALSE)>>, <<P(2, 0, FALSE)>> >>
+
+\* W6: out-of-order data is still queued when an in-order FIN closes the connection; an age flush with a stale snapshot runs concurrently
+MC_W6 == << <<P(1, 0, FALSE), PO(1, 0, FALSE), P(1, 0, TRUE)>>, <<P(0, 1, FALSE)>>, <<P(2, 0, FALSE)>> >>
 
 Export == AllDone => PrintT("BEH " \o ToJson([progs |-> Progs, sched |-> sched, panic |-> panic, mis |-> misdelivered]))
 =============================================================================
